@@ -63,7 +63,7 @@ def run(ctx) -> None:
     forwarding_rule(ctx, "C09.N4.lines-reach-the-parser-as-written")
     from ._matchrules import assembly_text_unmodified
     assembly_text_unmodified(ctx, "C09.N4.listing-read-in-text-mode")
-    paths, sites, pats = instr_patterns(I)
+    paths, sites, pats = instr_patterns(I, ctx)
     from ._parser import operands_from_operand_group
     operands_from_operand_group(ctx, "C09.N6.operands-only-from-operand-group", I, sites)
     # N5: a line with operands is never parsed by the operand-less regex
